@@ -42,7 +42,7 @@ FLOORS = {"quick": {"departures_checked": 20000, "drop_decisions_checked": 20000
                        "monitor_samples_coincident": 6000, "red_arrivals": 2000000, "red_prob_region_arrivals": 400000,
                        "red_below_min": 100000, "red_above_limit": 40000, "lohi_ambiguous": 2000,
                        "arrival_at_departure_instant": 20000}}
-KEYS = tuple(FLOORS["quick"].keys()) + ("monitor_cases", "red_cases", "port_cases", "red_certain_drops_checked", "long_history_cases", "big_clock_cases", "zero_size_packets", "reentry_cases", "reentries", "puts_before_the_run", "rate_reassignments", "terminal_port_cases")
+KEYS = tuple(FLOORS["quick"].keys()) + ("monitor_cases", "red_cases", "port_cases", "red_certain_drops_checked", "long_history_cases", "big_clock_cases", "zero_size_packets", "reentry_cases", "reentries", "puts_before_the_run", "rate_reassignments", "terminal_port_cases", "payload_length_differs_from_size")
 # floors for the situations added with the later rounds of seeded changes (evidence that they were really exercised)
 FLOORS["quick"].update({'reentries': 150})
 FLOORS["thorough"].update({'reentries': 750})
@@ -50,6 +50,8 @@ FLOORS["quick"].update({'puts_before_the_run': 15, 'rate_reassignments': 12})
 FLOORS["thorough"].update({'puts_before_the_run': 75, 'rate_reassignments': 60})
 FLOORS["quick"].update({'terminal_port_cases': 20})
 FLOORS["thorough"].update({'terminal_port_cases': 100})
+FLOORS["quick"].update({'payload_length_differs_from_size': 1000})
+FLOORS["thorough"].update({'payload_length_differs_from_size': 5000})
 
 
 def plan(tier):
@@ -92,6 +94,12 @@ def gen_case(rng, i):
             "t0": rng.choice([0, 0, 0, 2 ** 20, 1.7e9 if flavour == "float" else 2 ** 30])}
     for a in arr:
         a["t"] += case["t0"]
+    if rng.random() < 0.2:
+        # packets carrying application data: what a port charges and serialises is the packet's size, not len(payload)
+        for a in arr:
+            if rng.random() < 0.7:
+                a["payload_len"] = rng.choice([0, 1, max(1, a["size"] // 2), 2 * a["size"] + 3, 4000])
+        case["payloads"] = sum(1 for a in arr if "payload_len" in a)
     if rng.random() < 0.35 and not long_history:
         offs = rng.random() < 0.5
         case["monitor"] = {"included": rng.random() < 0.5,
@@ -401,6 +409,7 @@ def run_port(case, stats):
         bad(err, "the run raised", net.errors[-1] if net.errors else err)
         return viol
     stats["port_cases"] += 1
+    stats["payload_length_differs_from_size"] += case.get("payloads", 0)
     if case["rate"] == 0:
         stats["rate0_cases"] += 1
     if case["qlimit"] is None:
